@@ -229,6 +229,14 @@ def _concrete(ci, ak, c0, c1, cnt, bs, kw):
         kind, got = normalise(rec.calls[0])
         ekind, exp = expected_request(entries, kwargs)
         ok = kind == ekind and got == exp
+    if ok:
+        # the same variables object handed to a second call (a retry, or a concurrent call sharing it) describes the same
+        # request: a client that edits the caller's tree while separating files sends something else the second time
+        rec2, out2 = call_execute(ci, variables, dict(kwargs))
+        ok = out2 == ("ok", "RESP") and len(rec2.calls) == 1
+        if ok:
+            kind2, got2 = normalise(rec2.calls[0])
+            ok = kind2 == ekind and got2 == exp
     return ok, bool(MODEL_IN_DICT)
 
 
